@@ -108,3 +108,9 @@ func (cp *CollectingProcess) VerifServeConn(conn net.Conn) {
 		cp.handleTCPClient(conn)
 	}()
 }
+
+// VerifHandleUDPMessage hands one datagram to the UDP dispatch path exactly as
+// the read loop of startUDPServer does.
+func (cp *CollectingProcess) VerifHandleUDPMessage(address net.Addr, buf []byte) {
+	cp.handleUDPMessage(address, buf)
+}
